@@ -766,7 +766,7 @@ func init() {
 		},
 		DefaultN: func(tier string) int {
 			if tier == "thorough" {
-				return 20000
+				return 100000
 			}
 			return 500
 		},
